@@ -219,24 +219,7 @@ impl World {
         let mut total: u64 = 0;
         for (k, dbg, len) in log.lock().unwrap().iter() {
             total += *len as u64;
-            let f = |name: &str| -> u64 {
-                let pat = format!("{}: ", name);
-                let i = dbg.find(&pat).expect("record field") + pat.len();
-                let rest = &dbg[i..];
-                let end = rest.find(|c: char| !c.is_ascii_digit()).unwrap_or(rest.len());
-                rest[..end].parse().unwrap()
-            };
-            let vi = dbg.find("value: b\"").expect("value field") + 9;
-            let val = unescape_bytes_debug(&dbg[vi..]);
-            lines.push(format!(
-                "M {} {} {} {} {} {}",
-                hex(k),
-                hex(&val),
-                f("flags"),
-                f("cas"),
-                f("time_to_live"),
-                f("timestamp")
-            ));
+            lines.push(record_line(k, dbg));
         }
         lines.sort();
         for l in lines {
@@ -251,12 +234,26 @@ impl World {
     }
 }
 
+/// One "M" line from a key and the Debug rendering of its Record.
+pub fn record_line(k: &[u8], dbg: &str) -> String {
+    let f = |name: &str| -> u64 {
+        let pat = format!("{}: ", name);
+        let i = dbg.find(&pat).expect("record field") + pat.len();
+        let rest = &dbg[i..];
+        let end = rest.find(|c: char| !c.is_ascii_digit()).unwrap_or(rest.len());
+        rest[..end].parse().unwrap()
+    };
+    let vi = dbg.find("value: b\"").expect("value field") + 9;
+    let val = unescape_bytes_debug(&dbg[vi..]);
+    format!("M {} {} {} {} {} {}", hex(k), hex(&val), f("flags"), f("cas"), f("time_to_live"), f("timestamp"))
+}
+
 #[cfg(memcrs_verif)]
-fn usage_of(p: &RandomPolicy) -> u64 {
+pub fn usage_of(p: &RandomPolicy) -> u64 {
     p.verif_memory_usage()
 }
 #[cfg(not(memcrs_verif))]
-fn usage_of(_p: &RandomPolicy) -> u64 {
+pub fn usage_of(_p: &RandomPolicy) -> u64 {
     0
 }
 
@@ -362,6 +359,7 @@ impl SeqConn {
 pub enum Ev {
     Chunk(usize, Vec<u8>),
     Eof(usize),
+    Reset(usize),
     Tick(u64),
     Dump,
 }
@@ -420,6 +418,15 @@ pub fn run_case(cfg: &CaseCfg, events: &mut dyn FnMut(&[Vec<u8>], bool) -> Optio
                 open = false;
                 last = out;
             }
+            Ev::Reset(i) => {
+                let c = w.conn(i);
+                if c.status == Status::Open {
+                    c.status = Status::Reset;
+                }
+                let _ = writeln!(trace, "X {}", i);
+                let _ = writeln!(obs, "{}", w.status_line(i));
+                open = false;
+            }
             Ev::Tick(d) => {
                 w.tick(d);
                 let _ = writeln!(trace, "T {}", d);
@@ -430,6 +437,30 @@ pub fn run_case(cfg: &CaseCfg, events: &mut dyn FnMut(&[Vec<u8>], bool) -> Optio
             }
         }
     }
+}
+
+/// Parses the events of a trace file (oracle and group lines are re-observed).
+pub fn parse_trace(text: &str) -> Vec<(CaseCfg, Vec<Ev>)> {
+    let mut cases: Vec<(CaseCfg, Vec<Ev>)> = Vec::new();
+    for line in text.lines() {
+        let p: Vec<&str> = line.split(' ').collect();
+        match p[0] {
+            "CASE" => {
+                let ml = if p[3] == "none" { None } else { Some(p[3].parse().unwrap()) };
+                cases.push((
+                    CaseCfg { id: p[1].to_string(), item_limit: p[2].parse().unwrap(), mem_limit: ml },
+                    Vec::new(),
+                ));
+            }
+            "C" => cases.last_mut().unwrap().1.push(Ev::Chunk(p[1].parse().unwrap(), gen::unhex(p[2]))),
+            "E" => cases.last_mut().unwrap().1.push(Ev::Eof(p[1].parse().unwrap())),
+            "X" => cases.last_mut().unwrap().1.push(Ev::Reset(p[1].parse().unwrap())),
+            "T" => cases.last_mut().unwrap().1.push(Ev::Tick(p[1].parse().unwrap())),
+            "D" => cases.last_mut().unwrap().1.push(Ev::Dump),
+            _ => {}
+        }
+    }
+    cases
 }
 
 /// Replays the events of a trace file (oracle lines are re-observed).
@@ -447,6 +478,7 @@ pub fn replay(text: &str, trace: &mut String, obs: &mut String) {
             }
             "C" => cases.last_mut().unwrap().1.push(Ev::Chunk(p[1].parse().unwrap(), gen::unhex(p[2]))),
             "E" => cases.last_mut().unwrap().1.push(Ev::Eof(p[1].parse().unwrap())),
+            "X" => cases.last_mut().unwrap().1.push(Ev::Reset(p[1].parse().unwrap())),
             "T" => cases.last_mut().unwrap().1.push(Ev::Tick(p[1].parse().unwrap())),
             "D" => cases.last_mut().unwrap().1.push(Ev::Dump),
             _ => {}
